@@ -35,7 +35,9 @@ META = {
 }
 
 X = 'x'
-VALS = [None, 'x', 'y']           # None = absent
+ABSENT = '<absent>'
+VALS = [ABSENT, 'x', 'y', None]   # index 3: the field is present with an explicit JSON null
+META_VALS = [ABSENT, 'x', 'y']    # labels/annotations are strings
 
 
 def cb_is_x(value, **_):
@@ -51,18 +53,20 @@ def crit(i):
 
 
 def spec_value(c, v):
-    """docs/filters.rst 'Metadata filters' / 'Field filters' / 'Value callbacks': one criterion vs one value (None = absent)."""
+    """docs/filters.rst 'Metadata filters' / 'Field filters' / 'Value callbacks': one criterion vs one value
+    (ABSENT = the key/field is missing; None = present with an explicit null)."""
     if c == 0:
         return True
     if c == 1:
         return v == 'x'                   # "has a specific value"
     if c == 2:
-        return v is not None              # "with any value"
+        return v != ABSENT                # "with any value" (present, even if null)
     if c == 3:
-        return v is None                  # "has no label or annotation with that name"
+        return v == ABSENT                # "has no label or annotation with that name"
+    seen = None if v == ABSENT else v     # callbacks: "The passed value will be None if the value is absent"
     if c == 4:
-        return v == 'x'                   # callback; "The passed value will be None if the value is absent"
-    return v is None
+        return seen == 'x'
+    return seen is None
 
 
 def spec_match(kind, lc, ac, use_field, vc, oc, nc, when, label, ann, old_f, new_f, other_changed):
@@ -125,12 +129,12 @@ def build(kind, lc, ac, use_field, vc, oc, nc, when, dup):
 def make_cause(kind, label, ann, old_f, new_f, other_changed):
     def ess(f, other):
         e = {'spec': {'other': other}}
-        if f is not None:
+        if f != ABSENT:
             e['spec']['f'] = f
         m = {}
-        if label is not None:
+        if label != ABSENT:
             m['labels'] = {'l': label}
-        if ann is not None:
+        if ann != ABSENT:
             m['annotations'] = {'a': ann}
         if m:
             e['metadata'] = m
@@ -150,7 +154,7 @@ def h_match(lc: int, ac: int, use_field: bool, vc: int, oc: int, nc: int, when: 
     """
     pre: 0 <= lc <= 5 and 0 <= ac <= 5 and 0 <= vc <= 5 and 0 <= oc <= 5 and 0 <= nc <= 5
     pre: 0 <= when <= 2 and 0 <= dup <= 2
-    pre: 0 <= label <= 2 and 0 <= ann <= 2 and 0 <= old_f <= 2 and 0 <= new_f <= 2
+    pre: 0 <= label <= 2 and 0 <= ann <= 2 and 0 <= old_f <= 3 and 0 <= new_f <= 3
     post: _ == True
     """
     vkopf.begin_path()
@@ -177,9 +181,9 @@ def h_match(lc: int, ac: int, use_field: bool, vc: int, oc: int, nc: int, when: 
     if c.get('only_f9') and not f9:
         return True
     registry = build(kind, lc, ac, use_field, vc, oc, nc, when, dup)
-    cause = make_cause(kind, VALS[label], VALS[ann], VALS[old_f], VALS[new_f], other_changed)
+    cause = make_cause(kind, META_VALS[label], META_VALS[ann], VALS[old_f], VALS[new_f], other_changed)
     got = sorted(h.id.split('/')[0] for h in registry._changing.get_handlers(cause))
-    want_one = spec_match(kind, lc, ac, use_field, vc, oc, nc, when, VALS[label], VALS[ann], VALS[old_f], VALS[new_f], other_changed)
+    want_one = spec_match(kind, lc, ac, use_field, vc, oc, nc, when, META_VALS[label], META_VALS[ann], VALS[old_f], VALS[new_f], other_changed)
     want = [] if not want_one else (['h', 'h2'] if dup == 2 else ['h'])
     if want:
         vkopf.witness('matched')
